@@ -335,6 +335,11 @@ func resolveScalarBatch(sources []interface{}, typ *Scalar, destinations []*outp
 func resolveEnumBatch(sources []interface{}, typ *Enum, destinations []*outputNode) error {
 	for i, source := range sources {
 		val := unwrap(source)
+		if val == nil {
+			// No enum value (a nil pointer, or a batch resolver left this object out): null.
+			destinations[i].Fill(nil)
+			continue
+		}
 		if mapVal, ok := typ.ReverseMap[val]; !ok {
 			err := errors.New("enum is not valid")
 			destinations[i].Fail(err)
